@@ -327,7 +327,14 @@ def gen_tuple(r, idx):
     return {"id": f"t{idx}", "kind": "tuple", "family": name, "cfs": cfs, "special": special}
 
 
+# the base sets of the repaired exponent-lattice defects F4 / F4b ({4,8}, {4,1/2}, {2,4,8}, {9,27,3}, {1,2}) stay in
+# the corpus as regression cases: a recurrence is a violation
 FIXED_TUPLES = [
+    {"id": "fx-9-27-3", "kind": "tuple", "family": "9,27,3", "cfs": [["x", "9**n"], ["y", "27**n"], ["z", "3**n"]], "special": 0},
+    {"id": "fx-9-27", "kind": "tuple", "family": "9,27,3", "cfs": [["x", "2*9**n"], ["y", "27**n + 1"]], "special": 0},
+    {"id": "fx-1-2", "kind": "tuple", "family": "2,3", "cfs": [["x", "1"], ["y", "2**n"], ["z", "1 + 2**n"]], "special": 0},
+    {"id": "fx-6-2/3-2", "kind": "tuple", "family": "6,2/3,2",
+     "cfs": [["x", "6**n"], ["y", "Rational(2,3)**n"], ["z", "2**n"]], "special": 0},
     {"id": "fx-4-8", "kind": "tuple", "family": "4,8", "cfs": [["x", "4**n"], ["y", "8**n"]], "special": 0},
     {"id": "fx-4-half", "kind": "tuple", "family": "4,1/2", "cfs": [["x", "4**n"], ["y", "2**(-n)"]], "special": 0},
     {"id": "fx-2-4", "kind": "tuple", "family": "2,4,8", "cfs": [["x", "2**n"], ["y", "4**n"]], "special": 0},
